@@ -539,6 +539,7 @@ def run(ctx, br):
             items += [(c, o) for o in c["ops"]]
 
     oracle_fail = 0
+    known_shape = 0
     for c, op in items:
         if c["stream"] == "reject" and not rejected(c):
             # the parser accepted a prefix variable the grammar's identifier rule excludes
@@ -551,7 +552,10 @@ def run(ctx, br):
             continue
         why = oracle(c, op)
         if why:
-            oracle_fail += 1
+            if why[1] is None:
+                oracle_fail += 1
+            else:
+                known_shape += 1
             ctx.violation("C08 oracle: " + why[0], replay_of(c, op), signature=why[1])
 
     lab_topics = 0
@@ -637,6 +641,7 @@ def run(ctx, br):
         "go_topics_captured_at_transport": lab_topics,
         "judge_mismatches": len(mism),
         "oracle_failures": oracle_fail,
+        "oracle_failures_with_known_finding_signature": known_shape,
         "observations_inside_theorem_side_conditions": covered,
         "model_branch_tags": len(tags),
         "no_prediction_cases": len([v for v in verdicts if v >= 0 and (v & 128)]),
